@@ -312,6 +312,11 @@ func (e *Engine) nameWritersResult() *FuncResult {
 				ctx.addOblig("refkinds", proc+":handles:"+kd, BoolLit(ok), e.pos(pf))
 			}
 		}
+		// discriminator mappings name objects too (bare names of the union's own package): a renaming pass
+		// registers OnDisjunction (the mapping of a union) and OnStruct (its copy kept as a hint)
+		if set, found := visitorFieldsSet(pf); found {
+			ctx.addOblig("refkinds", proc+":rewrites-discriminator-mappings", BoolLit(set["OnDisjunction"] && set["OnStruct"]), e.pos(pf))
+		}
 		// the renaming visitor runs over ALL the schemas the pass was given (a reference to the renamed
 		// object can sit in any of them): Process hands its own schemas parameter to VisitSchemas
 		visitsAll := false
